@@ -3,6 +3,7 @@ package props
 import (
 	"fmt"
 	"go/ast"
+	"go/token"
 	"go/types"
 	"strings"
 
@@ -112,7 +113,7 @@ func fieldAttributes(r *core.Run) {
 		}
 	}
 	// Proto3Optional only under ExplicitlyOptional
-	ast.Inspect(fd.Body, func(n ast.Node) bool {
+	ast.Inspect(core.TreeBody(pk, fd, "buildField"), func(n ast.Node) bool {
 		as, ok := n.(*ast.AssignStmt)
 		if !ok || len(as.Lhs) != 1 {
 			return true
@@ -141,7 +142,7 @@ func fieldAttributes(r *core.Run) {
 		return true
 	})
 	// map arm literal label
-	ast.Inspect(fd.Body, func(n ast.Node) bool {
+	ast.Inspect(core.TreeBody(pk, fd, "buildField"), func(n ast.Node) bool {
 		kv, ok := n.(*ast.KeyValueExpr)
 		if ok && core.ExprStr(kv.Key) == "Label" {
 			o := r.Add("R-FLOW/attr", "j5convert.buildProperty | Label literal in "+clauseLabel(info, fd, enclosingClause(fd, kv)), kv.Pos(), "cardinality label")
@@ -166,41 +167,126 @@ func httpPathRewrite(r *core.Run) {
 	}
 	info := pk.TypesInfo
 	var split, prefix, join string
-	rewrite := ""
-	ast.Inspect(fd.Body, func(n ast.Node) bool {
-		switch x := n.(type) {
-		case *ast.CallExpr:
-			switch core.CalleeName(info, x) {
-			case "strings.Split":
-				split, _ = core.ConstString(info, x.Args[1])
-			case "strings.HasPrefix":
-				prefix, _ = core.ConstString(info, x.Args[1])
-			case "strings.Join":
-				join, _ = core.ConstString(info, x.Args[1])
-			}
-		case *ast.AssignStmt:
-			if len(x.Lhs) == 1 {
-				if ix, ok := x.Lhs[0].(*ast.IndexExpr); ok {
-					if _, isSlice := info.TypeOf(ix.X).Underlying().(*types.Slice); isSlice {
-						rewrite = core.ExprStr(ix.X) + "[" + core.ExprStr(ix.Index) + "] = " + core.ExprStr(x.Rhs[0])
+	body := core.TreeBody(pk, fd)
+	// locals defined once, for tracing a name through one assignment
+	defOf := func(id *ast.Ident) ast.Expr {
+		obj := info.Uses[id]
+		var def ast.Expr
+		n := 0
+		ast.Inspect(body, func(x ast.Node) bool {
+			if as, ok := x.(*ast.AssignStmt); ok && len(as.Lhs) == len(as.Rhs) {
+				for i, l := range as.Lhs {
+					if li, ok := l.(*ast.Ident); ok && (info.Defs[li] == obj || info.Uses[li] == obj) {
+						n++
+						def = as.Rhs[i]
 					}
 				}
 			}
+			return true
+		})
+		if n == 1 {
+			return def
+		}
+		return nil
+	}
+	isSnakeOfTail := func(e ast.Expr) bool {
+		if id, ok := core.Unparen(e).(*ast.Ident); ok {
+			if d := defOf(id); d != nil {
+				e = d
+			}
+		}
+		c, ok := core.Unparen(e).(*ast.CallExpr)
+		if !ok || !strings.HasSuffix(core.CalleeName(info, c), "strcase.ToSnake") || len(c.Args) != 1 {
+			return false
+		}
+		arg := core.Unparen(c.Args[0])
+		if id, ok := arg.(*ast.Ident); ok {
+			if d := defOf(id); d != nil {
+				arg = core.Unparen(d)
+			}
+		}
+		switch a := arg.(type) {
+		case *ast.SliceExpr: // part[1:]
+			if a.Low == nil || a.High != nil {
+				return false
+			}
+			k, isC := core.ConstInt(info, a.Low)
+			return isC && k == 1
+		case *ast.CallExpr: // strings.TrimPrefix(part, ":")
+			if core.CalleeName(info, a) == "strings.TrimPrefix" && len(a.Args) == 2 {
+				s, isC := core.ConstString(info, a.Args[1])
+				return isC && s == ":"
+			}
+		}
+		return false
+	}
+	rewriteOK, rewrite := false, ""
+	ast.Inspect(body, func(n ast.Node) bool {
+		switch x := n.(type) {
+		case *ast.RangeStmt:
+			// for idx, part := range parts { … parts[idx] = "{" + snake(part[1:]) + "}" }
+			key, _ := x.Key.(*ast.Ident)
+			if key == nil {
+				return true
+			}
+			ast.Inspect(x.Body, func(y ast.Node) bool {
+				as, ok := y.(*ast.AssignStmt)
+				if !ok || len(as.Lhs) != 1 || len(as.Rhs) != 1 {
+					return true
+				}
+				ix, ok := as.Lhs[0].(*ast.IndexExpr)
+				if !ok || core.ExprStr(ix.X) != core.ExprStr(x.X) {
+					return true
+				}
+				rewrite = core.ExprStr(as.Lhs[0]) + " = " + core.ExprStr(as.Rhs[0])
+				if id, ok := ix.Index.(*ast.Ident); !ok || info.Uses[id] != info.Defs[key] {
+					return true
+				}
+				// "{" + V + "}"
+				outer, ok := core.Unparen(as.Rhs[0]).(*ast.BinaryExpr)
+				if !ok || outer.Op != token.ADD {
+					return true
+				}
+				inner, ok := core.Unparen(outer.X).(*ast.BinaryExpr)
+				if !ok || inner.Op != token.ADD {
+					return true
+				}
+				l, okL := core.ConstString(info, inner.X)
+				rr, okR := core.ConstString(info, outer.Y)
+				if okL && okR && l == "{" && rr == "}" && isSnakeOfTail(inner.Y) {
+					rewriteOK = true
+					// the slice being rewritten: where it comes from, where it goes, how parameters are recognised
+					sliceName := core.ExprStr(x.X)
+					if id, ok := core.Unparen(x.X).(*ast.Ident); ok {
+						if d := defOf(id); d != nil {
+							if c, ok := core.Unparen(d).(*ast.CallExpr); ok && core.CalleeName(info, c) == "strings.Split" {
+								split, _ = core.ConstString(info, c.Args[1])
+							}
+						}
+					}
+					ast.Inspect(body, func(z ast.Node) bool {
+						if c, ok := z.(*ast.CallExpr); ok && core.CalleeName(info, c) == "strings.Join" && len(c.Args) == 2 && core.ExprStr(c.Args[0]) == sliceName {
+							join, _ = core.ConstString(info, c.Args[1])
+						}
+						return true
+					})
+					ast.Inspect(x.Body, func(z ast.Node) bool {
+						if c, ok := z.(*ast.CallExpr); ok && core.CalleeName(info, c) == "strings.HasPrefix" && len(c.Args) == 2 && x.Value != nil && core.ExprStr(c.Args[0]) == core.ExprStr(x.Value) {
+							prefix, _ = core.ConstString(info, c.Args[1])
+						}
+						return true
+					})
+				}
+				return true
+			})
 		}
 		return true
 	})
 	o := r.Add("R-CONST/httppath", "j5convert.visitServiceMethodNode | path parameter rewrite", fd.Pos(), "path rewrite")
-	snake := false
-	ast.Inspect(fd.Body, func(n ast.Node) bool {
-		if as, ok := n.(*ast.AssignStmt); ok && len(as.Rhs) == 1 && core.ExprStr(as.Rhs[0]) == "strcase.ToSnake(part[1:])" {
-			snake = true
-		}
-		return true
-	})
-	if split == "/" && prefix == ":" && join == "/" && snake && strings.Contains(rewrite, `= "{" + fieldName + "}"`) && strings.Contains(rewrite, "[idx]") {
+	if split == "/" && prefix == ":" && join == "/" && rewriteOK {
 		o.Auto("split %q, prefix %q, %s, join %q", split, prefix, rewrite, join)
 	} else {
-		o.Fail("split=%q prefix=%q join=%q snake=%v rewrite=%q does not implement :name → {snake_name}", split, prefix, join, snake, rewrite)
+		o.Fail("split=%q prefix=%q join=%q rewrite=%q does not implement :name → {snake_name} stored back at the element's own index", split, prefix, join, rewrite)
 	}
 	_ = fmt.Sprintf
 }
